@@ -2091,6 +2091,10 @@ class Interp:
                     return [(cfg, Const(hasattr({"list": [], "tuple": (), "set": set()}.get(args[0].kind, []), args[1].v)))]
                 if isinstance(args[0], Const):
                     return [(cfg, Const(hasattr(args[0].v, args[1].v)))]
+                if isinstance(node.args[0], ast.Name) and node.args[0].id == "builtins" and isinstance(args[0], Sym):
+                    # the host's builtins module (the interpreter's own lookup table): a fact of the running Python, nothing of the repository is run
+                    import builtins as _b
+                    return [(cfg, Const(hasattr(_b, args[1].v)))]
             return [(cfg, App("hasattr", tuple(args)))]
         if fname == "callable" and len(args) == 1 and isinstance(args[0], (FuncV, ClassV)):
             return [(cfg, TRUE)]
@@ -2102,8 +2106,8 @@ class Interp:
         if isinstance(node.func, ast.Attribute) and isinstance(node.func.value, ast.Attribute):
             recv_attr = node.func.value  # e.g. self.sym_table_stack.append(...)
 
-        def rebind(newv, ret=NONE):
-            c = cfg
+        def rebind(newv, ret=NONE, c0=None):
+            c = cfg if c0 is None else c0
             org = getattr(base, "origin", None)
             if org is not None and isinstance(newv, DictV):
                 newv = DictV(newv.items, org)
@@ -2197,7 +2201,8 @@ class Interp:
                 v = base.get(args[0])
                 nd = DictV([(k, x) for k, x in base.items if k != args[0]], base.origin)
                 if v is not None:
-                    return rebind(nd, v)
+                    # removing a key is an observable of the dictionary, like `del d[k]`
+                    return rebind(nd, v, cfg.emit(("delitem", base, args[0])) if getattr(self.policy, "emit_setitem", True) else None)
                 if len(args) > 1:
                     return rebind(nd, args[1])
             if meth == "setdefault" and len(args) == 2:
